@@ -117,12 +117,30 @@ Theorem C12_derived_handler_complete :
       get_handler (build_handlers (effective chain)) s t = Some (h_id h', h_contextual h').
 Proof. exact derived_handler_complete. Qed.
 
-(** ... and the refinement holds for stacks built from such classes (class pool [p], tree [t]),
+(** ... and the refinement holds for stacks whose class tree results from a class pool with
+    inheritance [p] and any [add]/[remove] set-up ([ls] = the LAYERS dictionaries it produced),
     whatever the order in which base and derived classes get instantiated. *)
 Theorem C12_refinement_derived :
-  forall p (t : ctree) (ops : list op),
-    trace (impl_run (elab p t) ops) = trace (spec_run (elab p t) ops).
+  forall depth p ls rt (ops : list op),
+    trace (impl_run (elabc depth p ls rt) ops) = trace (spec_run (elabc depth p ls rt) ops).
 Proof. exact refinement_derived. Qed.
+
+(** [cls.add(sub)] / [cls.remove(sub)] change the sub-layers of [cls] and of the classes derived
+    from it only: a class [c'] whose MRO does not contain [cls] (in particular every base class
+    of [cls]) keeps its sub-layer dictionary; on [cls] itself [add] is a dictionary assignment
+    on (a copy of) the dictionary it inherits. *)
+Theorem C12_add_remove_are_local :
+  forall p ls st c',
+    ~ In (match st with SAdd c _ => c | SRemove c _ => c end) (mro_ids (S (length p)) p c') ->
+    layers_of (S (length p)) p (setup_step p ls st) c' = layers_of (S (length p)) p ls c'.
+Proof. exact setup_step_local. Qed.
+
+Theorem C12_add_extends_the_inherited_dictionary :
+  forall p ls c sub,
+    layers_of (S (length p)) p (setup_step p ls (SAdd c sub)) c
+    = Some (aset N.eqb (match layers_of (S (length p)) p ls c with Some d => d | None => [] end)
+                 (alias_of p sub) sub).
+Proof. exact setup_add_self. Qed.
 
 (** Non-vacuity for inheritance: base class (methods 0: default of source 1, 1: tag 1 of source 1),
     derived class adds method 2 (tag 2 of source 1) and method 3 (new source 5) and overrides
